@@ -87,9 +87,12 @@ func (lb *WeightedLeastActiveLoadBalance) Handler(ctx context.Context, request [
 	lb.actives[index]++
 	lb.rwlock.Unlock()
 
+	panicking := true // panic(nil) makes recover return nil: only this tells it from a return
 	defer func() {
 		if e := recover(); e != nil {
 			err = core.NewPanicError(e)
+		} else if panicking {
+			err = core.NewPanicError("panic called with nil argument")
 		}
 		lb.rwlock.Lock()
 		lb.actives[index]--
@@ -102,5 +105,7 @@ func (lb *WeightedLeastActiveLoadBalance) Handler(ctx context.Context, request [
 		}
 		lb.rwlock.Unlock()
 	}()
-	return next(ctx, request)
+	response, err = next(ctx, request)
+	panicking = false
+	return
 }
